@@ -1036,6 +1036,80 @@ def run_git_stream(ctx, nscen, seeds=None):
     for c in ctx.corr('upstream', HEADER, 'check_upstream', T_UP, up_cases, shard_chars=45000):
         viol(ctx, 'model resolve_upstream and the commit `deploy` rendered disagree', c, no_input=True)
 
+def run_git_refs_stream(ctx, nscen):
+    """several modules from ONE remote at DIFFERENT refs (branch head, a tag on an older commit, a hex commit): each
+    module is locked at the commit its own ref names, and the lockfile does not depend on the order of the modules"""
+    lock_cases = []
+    for i in range(nscen):
+        seed = ctx.rng.getrandbits(48)
+        rng = random.Random(seed)
+        sb = SB('c18r')
+        try:
+            sb.git_init_project()
+            gw = GitWorld(sb, rng)
+            def tree(v):
+                return {('skills', 'foo', 'SKILL.md'): b'---\nname: foo\ndescription: d\n---\nfoo-' + v + b'\n',
+                        ('skills', 'foo', 'notes.md'): b'notes ' + v + b'\n',
+                        ('skills', 'bar', 'SKILL.md'): b'---\nname: bar\ndescription: d\n---\nbar-' + v + b'\n',
+                        ('README.md',): b'readme ' + v + b'\n'}
+            c1 = gw.commit(tree(b'v1'), 'c1')
+            gw.tag('v1', rng.random() < 0.5)
+            c2 = gw.commit(tree(b'v2'), 'c2')
+            if rng.random() < 0.5:
+                gw.tag('v2', rng.random() < 0.5)
+            gw.publish()
+            refs = {'main': c2, 'v1': c1, c1: c1, c2: c2}
+            if 'v2' in gw.git(['tag', '-l'], gw.work).split(): refs['v2'] = c2
+            names = sorted(refs)
+            chosen = rng.sample(names, rng.choice([2, 2, 3]))
+            if len({refs[r] for r in chosen}) < 2:
+                chosen = ['main', 'v1'] + chosen[2:]
+            codex_home = os.path.join(sb.home, 'codex_home'); os.makedirs(codex_home)
+            mods = []
+            for k, r in enumerate(chosen):
+                sd = rng.choice(['skills/foo', 'skills/bar'])
+                mods.append({'id': 'skill:m%d-%s' % (k, sd.split('/')[-1]), 'type': 'skill', 'tags': ['t'],
+                             'source': {'git': {'url': gw.url, 'ref': r, 'subdir': sd}}})
+            case = {'stream': 'git_refs', 'scenario_seed': seed, 'modules': [(m['id'], m['source']['git']['ref'][:12], m['source']['git']['subdir']) for m in mods]}
+            docs = []
+            for order in (list(mods), list(reversed(mods))):
+                man = manifest_doc(order)
+                man['targets'] = {'codex': {'mode': 'files', 'scope': 'user',
+                                            'options': {'codex_home': codex_home, 'write_agents_global': False, 'write_agents_repo_root': False,
+                                                        'write_user_skills': True, 'write_repo_skills': False, 'write_user_prompts': False}}}
+                world.write_config(sb.repo, man)
+                try: os.remove(os.path.join(sb.repo, 'agentpack.lock.json'))
+                except FileNotFoundError: pass
+                rc, doc, out, err = sb.cli_json(['lock', '--yes'])
+                raw, lk = read_lock(sb)
+                if rc != 0 or lk is None:
+                    viol(ctx, 'lock of git modules at different refs of one remote failed', {**case, 'stdout': out[:1500], 'stderr': err[:500]}); docs = None; break
+                docs.append((raw, lk, order))
+            ctx.count('git_refs', key=seed, nontrivial=True, tags=['refs:%d' % len(chosen)] + ['ref:' + ('hex' if len(r) == 40 else r) for r in chosen])
+            if not docs: continue
+            for raw, lk, order in docs:
+                for lm in lk['modules']:
+                    g = lm['resolved_source'].get('git')
+                    want = refs[[m for m in mods if m['id'] == lm['id']][0]['source']['git']['ref']]
+                    if g and (g['commit'] != want or lm['resolved_version'] != want):
+                        viol(ctx, 'lock recorded commit %s for %s whose ref points at %s (another module of the same remote uses a different ref)' % (g['commit'][:12], lm['id'], want[:12]),
+                             {**case, 'order': [m['id'] for m in order], 'lock': lm})
+                check_lock_content(ctx, gw, lk, case, 'lock')
+            if mask_ts(docs[0][0]) != mask_ts(docs[1][0]):
+                viol(ctx, 'the lockfile depends on the order of the modules in agentpack.yaml', {**case, 'lock_a': docs[0][1], 'lock_b': docs[1][1]})
+            raw, lk, order = docs[0]
+            remote = [(gw.url, r, c) for r, c in refs.items() if len(r) != 40]
+            rterm = cq.clist([cq.cpair(cq.cstr(u), cq.cstr(r), cq.cstr(c)) for u, r, c in remote])
+            keys0 = sorted({(gw.url, refs[m['source']['git']['ref']], m['source']['git']['subdir']) for m in mods})
+            lock_cases.append((cq.cpair(cq.clist([cmodule(m) for m in order]), '[]', rterm, co_term(gw, keys0), ctx_tx(tx_of([lk])),
+                                        cq.copt(cq.clist(obs_locked_terms(lk)))), {**case, 'step': 'lock', 'impl_lock': lk}))
+            if i < 1:
+                ctx.sample({'stream': 'git_refs', 'modules': case['modules'], 'locked': [[m['id'], m['resolved_version'][:12]] for m in lk['modules']]})
+        finally:
+            sb.close()
+    for c in ctx.corr('git_refs', HEADER, 'check_lock', T_LOCK, lock_cases, shard_chars=45000):
+        viol(ctx, 'model generate_lockfile and `agentpack lock` disagree on git modules at different refs of one remote', c, no_input=True)
+
 def manifest_of(isf, tree):
     """independent reading of the documented manifest: (path, sha256, size) of every file outside .git, sorted by path"""
     if isf:
@@ -1169,3 +1243,4 @@ def run(ctx):
     run_tree_stream(ctx, 130 if quick else 1500)
     run_lock_stream(ctx, 26 if quick else 250)
     run_git_stream(ctx, 16 if quick else 150)
+    run_git_refs_stream(ctx, 6 if quick else 80)
